@@ -431,6 +431,67 @@ vh::Register r12r("C12r", spec12r(false), spec12r(true), run_c12r,
                   "sequential programs on rcu_list<E, recursive_mutex> where E's constructor re-enters emplace_front/emplace_back of the same list while the outer emplace holds the write lock; "
                   "contents compared with a reference list after every operation; non-trivial = at least one nested append");
 
+
+// ---- C13b: long histories.  One or two long-lived readers stay registered while a writer goes through a burst of K short write handles
+// (each pushes one element and erases one), with short-lived read handles opened and released in between; then everything is released
+// and the list destroyed.  Reclamation has to cope with dozens of retire / registration records queued behind an old reader.
+vh::Outcome run_c13_burst(const vh::Case& c) {
+    using List = lg::rcu_list<Tracked, vstd::mutex, vrt::QAlloc<Tracked>>;
+    using G = lg::rcu_guarded<List>;
+    reset_case_globals();
+    vrt::ledger().strict_null = true; vrt::ledger().strict_lifecycle = true;
+    vh::Outcome out;
+    static const int kBurst[6] = {5, 9, 17, 18, 30, 60};
+    int K = kBurst[c.cfg.empty() ? 0 : c.cfg[0] % 6];
+    int nreaders = 1 + (c.cfg.size() > 1 ? c.cfg[1] % 2 : 0);
+    int erase_every = 1 + (c.cfg.size() > 2 ? c.cfg[2] % 3 : 0);        // the writer erases in every / every 2nd / every 3rd handle
+    int progress = 0, pushed = 0, erased = 0; bool reader_outlived = false;
+    out.res = vrt::run(c.sched, [&] {
+        {
+            G rl;
+            { auto h = rl.lock_write(); for (int i = 0; i < 3; ++i) { h->push_back(Tracked((uint64_t)(900 + i))); pushed++; } }
+            for (int r = 0; r < nreaders; ++r) {
+                const auto& ops = (size_t)r < c.fibers.size() ? c.fibers[(size_t)r] : std::vector<vh::Op>();
+                int release_at = std::min(K, ops.empty() ? K : (ops[0].a * K) / 8 + (ops[0].b & 1));      // the writer's progress at which this reader lets go
+                vrt::spawn([&, release_at] {
+                    auto h = rl.lock_read();
+                    auto it = h->begin();                                   // registered from here on
+                    if (it != h->end()) { vrt::check_live_addr(&*it, "iterator dereference"); (void)it->read(); }
+                    int guard = 0;
+                    while (progress < release_at && ++guard < 200000) vrt::yield_now();
+                    if (progress >= K / 2) reader_outlived = true;
+                    for (; it != h->end(); ++it) { vrt::check_live_addr(&*it, "iterator dereference under an old read handle"); (void)it->read(); }
+                });
+            }
+            vrt::spawn([&] {
+                for (int q = 0; q < K; ++q) {
+                    { auto h = rl.lock_write(); h->push_back(Tracked((uint64_t)(1000 + q))); pushed++; if (q % erase_every == 0) { auto it = h->begin(); if (it != h->end()) { h->erase(it); erased++; } } }
+                    progress = q + 1;
+                    if (q % 3 == 2) { auto h = rl.lock_read(); (void)h->begin(); }       // a short-lived reader in between
+                }
+            });
+            vrt::spawn([&] {
+                const auto& ops = c.fibers.size() > 2 ? c.fibers[2] : std::vector<vh::Op>();
+                for (auto& op : ops) { for (int s2 = 0; s2 < (op.b & 3); ++s2) vrt::yield_now(); auto h = rl.lock_read(); auto it = h->begin(); if ((op.a & 1) && it != h->end()) (void)it->read(); }
+            });
+            vrt::join_all();
+            { auto h = rl.lock_read(); int n = 0; for (auto it = h->begin(); it != h->end(); ++it) n++; if (n != pushed - erased) vrt::fail("final-contents", "the list holds " + std::to_string(n) + " elements, inserted minus erased is " + std::to_string(pushed - erased)); }
+        }
+        auto& L = vrt::ledger();
+        if (L.live_blocks() != 0) vrt::fail("leak", std::to_string(L.live_blocks()) + " allocator block(s) still allocated after the list was destroyed (burst of " + std::to_string(K) + " write handles behind an old reader)");
+        if (L.live_objects() != 0) vrt::fail("leak", "objects never destroyed after the list was destroyed");
+        if (vrt::tstats().ctor != vrt::tstats().dtor) vrt::fail("instance-count", "payload constructions and destructions differ after the list was destroyed");
+    });
+    out.labels.push_back("burst=" + std::to_string(K));
+    if (reader_outlived) out.labels.push_back("old-reader-outlived-half-the-burst");
+    out.nontrivial = reader_outlived && erased > 0;
+    return out;
+}
+vh::GenSpec spec13b(bool th) { vh::GenSpec g; g.nfibers = 3; g.max_ops = th ? 5 : 3; g.ncodes = 1; g.amax = 9; g.bmax = 4; g.cfg_max = {6, 2, 3}; g.sched_len = th ? 160 : 96; g.aux_len = 8; g.step_budget = 60000; return g; }
+vh::Register r13b("C13b", spec13b(false), spec13b(true), run_c13_burst,
+                  "one or two long-lived registered readers x a writer going through 5 / 9 / 17 / 18 / 30 / 60 short write handles (push + erase) with short read handles in between, generated release points "
+                  "and schedules; strict allocator ledger after list destruction; non-trivial = an old reader stayed registered for at least half of the burst and something was erased");
+
 vh::Outcome dispatch13(const vh::Case& c) {
     int t = c.cfg.empty() ? 0 : c.cfg[0] % 4;
     if (t == 3) { vh::Outcome o = run_rcu<Tracked, vrt::QAllocS<Tracked>>(c, P_C13); o.labels.push_back("stateful-allocator"); return o; }
